@@ -27,6 +27,9 @@ opened by the previous directive.
     %wrap N `anchor`              two text blocks separated by a line '---': inserted before / after the anchor tokens
     %truncate N `e as T`          shorthand: wrap the cast in #[verifier::truncate] ( ... )
     %nocanary                     do not emit the reachability canary for this function
+    %specialize PARAM => FUNC     R19: `%fn PATH#TAG` emits a copy NAME__TAG of the function in which the function-pointer
+                                  parameter PARAM is dropped and every call `PARAM(...)` calls FUNC (one copy per call site's
+                                  function argument; the call sites are redirected with %rename)
     %shared                       trait method declaration whose contract is included (identically) by several units
   %endfn
   %extern PATH                    external_body declaration using PATH's %spec from its home unit
@@ -65,6 +68,7 @@ class FnSpec:
     loops: dict = field(default_factory=dict)     # n -> (iter_name, text)
     hints: list = field(default_factory=list)
     nocanary: bool = False
+    specialize: dict = field(default_factory=dict)
     shared: bool = False
     src: str = ""
     line: int = 0
@@ -250,6 +254,9 @@ def parse_unit(path):
             cur_fn.props = arg.split()
         elif d == "%nocanary":
             cur_fn.nocanary = True
+        elif d == "%specialize":
+            a, b = [x.strip() for x in arg.split("=>")]
+            cur_fn.specialize[a] = b
         elif d == "%shared":
             # a trait method declaration whose contract is included by several units (same text)
             cur_fn.shared = True
